@@ -1162,6 +1162,16 @@ def fam_search(rng: random.Random, backend: str) -> dict[str, Any]:
             d = rng.choice([b'1-Jan-2024', b'02-Jan-2024', b'3-Jan-2024',
                             b'31-Dec-2023'])
             keys.append(neg + [K(k), SP, A(d, 'date')])
+    if rng.random() < 0.2:
+        # search return options (the word RETURN and the option names are
+        # case-insensitive like every other keyword)
+        opts = rng.sample([b'MIN', b'MAX', b'COUNT', b'ALL'],
+                          rng.choice([0, 1, 1, 2]))
+        cmd += [SP, K(b'RETURN'), SP, b'(']
+        for j, o in enumerate(opts):
+            cmd += ([SP] if j else []) + [K(o)]
+        cmd += [b')']
+        classes.append('search:return')
     if eightbit or rng.random() < 0.15:
         cs = b'UTF-8' if eightbit else rng.choice([b'UTF-8', b'US-ASCII',
                                                     b'utf-8'])
